@@ -45,11 +45,12 @@ def control_response(status, text, body_name):
     return T.enc_tlv(CR, v)
 
 
-def reply_wire(kind, interest_wire, interest_name, prefix):
+def reply_wire(kind, interest_wire, interest_name, prefix, nack_reason=150):
     if kind == 'silence':
         return None
     if kind == 'nack':
-        return net.lp_wrap(interest_wire, nack_reason=150)
+        # (any reason code, also one the forwarder specification has not assigned: the command failed, nothing more)
+        return net.lp_wrap(interest_wire, nack_reason=nack_reason)
     if kind == 'ok-body':
         c = control_response(200, 'OK', prefix)
     elif kind == 'ok-nobody':
@@ -229,7 +230,7 @@ def _run(sim, fe, case, r, tag=''):
             state['outstanding'] -= 1
             return
         state['last_ts'] = res[0]
-        reply = reply_wire(call['reply'], w, res[1], S.name_comps(call['prefix']))
+        reply = reply_wire(call['reply'], w, res[1], S.name_comps(call['prefix']), call.get('nack_reason', 150))
         lat = call['latency'] / 1000
 
         def deliver():
@@ -251,7 +252,7 @@ def _run(sim, fe, case, r, tag=''):
 
     async def one(i, c):
         try:
-            pfx = S.name_comps(c['prefix'])
+            pfx = _name_form(S.name_comps(c['prefix']), c.get('name_form', 'list'))
             if fe == 'v2':
                 if c['op'] == 'register':
                     res = await sim.app.register(pfx)
@@ -350,8 +351,34 @@ def _cp_prefix(comp):
         return None
 
 
+def _name_form(comps, form):
+    """The prefix in one of the documented NonStrictName forms (one-shot iterables included)."""
+    from ndn.encoding import Name
+    if form == 'tuple':
+        return tuple(comps)
+    if form == 'iter':
+        return iter(list(comps))
+    if form == 'gen':
+        return (c for c in comps)
+    if form == 'str':
+        # (URI text only where it denotes this very name: the shorthand for typed numbers is not invertible for numbers that
+        #  are not canonically encoded - C09 leaves those out, and so does this form)
+        try:
+            text = Name.to_str(comps)
+            if [bytes(c) for c in Name.from_str(text)] != [bytes(c) for c in comps]:
+                return list(comps)
+        except Exception:
+            return list(comps)
+        return text
+    if form == 'bytes':
+        return bytes(Name.to_bytes(comps))
+    return list(comps)
+
+
 def _call(fe):
-    return st.fixed_dictionaries({'op': st.sampled_from(['register', 'register', 'unregister']),
+    return st.fixed_dictionaries({'nack_reason': st.sampled_from([150, 150, 0, 50, 100, 120, 151, 200, 255, 1000]),
+                                  'name_form': st.sampled_from(['list', 'list', 'tuple', 'iter', 'gen', 'str', 'bytes']),
+                                  'op': st.sampled_from(['register', 'register', 'unregister']),
                                   'prefix': S.name(0, 4, 12, allow_digest_types=False),
                                   'reply': st.sampled_from(REPLIES), 'latency': st.sampled_from([0, 1, 3, 999, 1001]),
                                   'with_func': st.booleans(),
